@@ -357,6 +357,20 @@ def run(ctx):
             ok, err = False, repr(ex)[:160]
         if not ok:
             ctx.violation({'kind': 'views-of-a-result-with-float-oversample', 'oversample': str(ov)}, {'error': err}, case=None)
+    # ... and the same for the FFT route with an explicit shape (an exactly sampled grid: 1 / alpha = 40 per oversampled sample)
+    wfv = lentil.Wavefront(1e-6) * lentil.Pupil(amplitude=lentil.circle((16, 16), 6), pixelscale=1e-3, focal_length=1.0)
+    ref3 = lentil.propagate_fft(wfv, pixelscale=50e-6, shape=(6, 7), oversample=2)
+    for ov in (2.0, np.float64(2), np.float32(2), np.uint64(2)):
+        ctx.case(('float-oversample-fft', type(ov).__name__))
+        try:
+            wi = lentil.propagate_fft(wfv, pixelscale=50e-6, shape=(6, 7), oversample=ov)
+            f_, i_ = wi.field, wi.intensity
+            ok = f_.shape == (12, 14) and np.allclose(i_, np.abs(f_) ** 2, rtol=1e-12, atol=1e-15) and np.allclose(f_, ref3.field, rtol=1e-12, atol=1e-14)
+            err = None
+        except Exception as ex:
+            ok, err = False, repr(ex)[:160]
+        if not ok:
+            ctx.violation({'kind': 'views-of-a-result-with-float-oversample', 'route': 'fft', 'oversample': type(ov).__name__}, {'error': err}, case=None)
     # a wavefront that has met no sampled plane yet is one constant c on an unbounded plane (Optics!ConstPhasorTerms): its intensity is
     # |c|^2 everywhere, so accumulating it into ANY array with a weight adds weight * |c|^2 to every sample
     for _ in range(30):
